@@ -96,6 +96,25 @@ theorem C03_lattice_iff (K : Ctx) (h : K.WF) (A B : Nat) :
     obtain ⟨r, hr, h1, h2⟩ := C03_complete K h A B hc
     exact List.mem_map.mpr ⟨r, hr, by rw [h1, h2]⟩
 
+/-- no pair repeated in `iter(lattice)` -/
+theorem C03_lattice_nodup (K : Ctx) (h : K.WF) : ((mkLattice K).map fun c => (c.extent, c.intent)).Nodup := by
+  rw [(C03_lattice_pairs K).1]
+  have := C03_nodup K h
+  have hmap : (lindigLattice K).map (·.extent) = ((lindigLattice K).map fun r => (r.extent, r.intent)).map Prod.fst := by
+    rw [List.map_map]; rfl
+  rw [hmap] at this
+  exact List.Nodup.of_map _ this
+
+/-- `len(lattice)` is the number of formal concepts (= closed object sets) -/
+theorem C03_lattice_len (K : Ctx) (h : K.WF) :
+    (mkLattice K).length =
+      (@Finset.filter _ (fun A => closedObj K A) (Classical.decPred _) (Finset.range (2 ^ K.n))).card := by
+  rw [(C03_lattice_pairs K).2]; exact C03_len K h
+
+/-- the bottom concept has the least extent -/
+theorem C03_bottom_least (K : Ctx) (h : K.WF) (A B : Nat) (hc : isConcept K A B) : K.doubleObj 0 ⊆ᵇ A :=
+  bot_least h (isConcept_iff_closed.mp hc).1
+
 def C03_exK : Ctx := mkCtx 3 3 #[0b011, 0b001, 0b110]
 theorem C03_exK_WF : C03_exK.WF := mkCtx_WF 3 3 _ rfl (by intro i hi; interval_cases i <;> decide)
 example : ((lindigLattice C03_exK).map (·.extent)).Nodup := C03_nodup _ C03_exK_WF
